@@ -16,7 +16,7 @@ import ir, flow, variants
 from common import where, fwhere
 import scanner_ids as S
 from scanner_ids import scanner
-from c05 import Cases, array_elem, esig, sig_mentions
+from c05 import Cases, array_elem, esig, sig_mentions, action_switch, eob_constant
 
 NL = 10
 
@@ -168,23 +168,6 @@ def nl_compare_of(fn, v):
     if d.ops[0] == ('int', NL): return d.ops[1]
     return None
 
-def action_switch(fn):
-    sws = [x for x in fn.ins if x.op == 'switch']
-    return max(sws, key=lambda x: len(x.cases)) if sws else None
-
-def eob_constant(sc, fn):
-    """YY_END_OF_BUFFER: the constant added to yystart() to form the EOF action number"""
-    res = ir.Resolver(fn)
-    for x in fn.ins:
-        if x.op != 'store': continue
-        d = fn.def_of(x.ops[1])
-        if d is None or d.op != 'alloca': continue
-        sl = flow.value_slice(fn, x.ops[0])
-        if not any((y.op == 'load' and sc.is_var(res.loc(y.ops[0]), 'yy_start')) or (y.op in ('call', 'invoke') and sc.callee(y) == 'yystart') for y in sl): continue
-        cs_ = [o[1] for y in sl if y.op == 'add' for o in y.ops if o[0] == 'int' and o[1] > 1]
-        if cs_: return cs_[0], x
-    return None, None
-
 def r2(ctx, sc):
     rep = ctx.rep; v = sc.v
     lex = sc.fns('yylex')
@@ -212,7 +195,6 @@ def r2(ctx, sc):
         """stores of the flag in fn that have the right value (last byte of the token == '\\n'); returns (good guards, problems)"""
         r = ir.Resolver(fn); c = sc.prog.cfg(fn, cut=False); good = []; probs = []
         for x in bol_stores(sc, fn):
-            if x.loc[0] == 'spec.l': continue
             X = nl_compare_of(fn, x.ops[0])
             ok = False
             if X is not None:
@@ -257,9 +239,9 @@ def r2(ctx, sc):
                 rep.ok('C06.R2', '%s rule_check_bol: flag := (yytext[yyleng-1] == \'\\n\') under yyleng > 0' % v.name)
         setups = sc.calls(yylex, 'rule_check_bol')
     else:
+        # stores of another shape inside yylex are not rule set-ups (the user-visible yy_set_bol()/yysetbol() macros expand there);
+        # an arm whose set-up has the wrong shape is reported below as an arm without set-up
         good, probs = check_setup_fn(yylex)
-        for x, msg in probs[:1]:
-            rep.fail('C06.R2', sc.key('C06.R2', 'yylex', 'rule-setup-value'), where(x), msg + ' [variant %s]' % v.name, variant=v.describe())
         for x, gs in good:
             setups += (gs or [x])
     rule_cases = sorted({c for c, l in sw.cases if 1 <= c < EOB})
